@@ -69,9 +69,9 @@ def run(tier):
             x["kind"], x["pages"], x["faults"], x["consumer"], [(f["page"], f["reply"]) for f in x["frames"]], x["items"], x["end"],
             (x["err"] or x["start_err"])[:120]), [x])
     # ---- control connection --------------------------------------------------------------------------------------
-    ctl = [{"id": i, "nodes": n, "keyspaces": k, "tables": t, "sys_page": p}
-           for i, (n, k, t, p) in enumerate((n, k, t, p) for n in (1, 2, 3, 5) for k in (0, 1, 3) for t in (0, 1, 3) for p in (0, 1, 2, 4)
-                                            if not (k == 0 and t > 0))]
+    ctl = [{"id": i, "nodes": n, "keyspaces": k, "tables": t, "sys_page": p, "empty": e}
+           for i, (n, k, t, p, e) in enumerate((n, k, t, p, e) for n in (1, 2, 3, 5) for k in (0, 1, 3) for t in (0, 1, 3) for p in (0, 1, 2, 4) for e in (0, 1)
+                                               if not (k == 0 and t > 0) and not (e == 1 and p == 0))]
     cin, cout = os.path.join(wd, "ctl.ndjson"), os.path.join(wd, "ctl.out.ndjson")
     write_ndjson(cin, ctl)
     run_harness("vh-driver", ["c07-control", cin, cout], timeout=1800)
